@@ -172,7 +172,7 @@ func init() {
 	for _, p := range []string{"C01", "C06", "C20"} {
 		props[p] = common.UniverseProperty(p, common.UniImpl{V2: true, Load: loadV1, LookupChecks: lookupChecksV1, LoadHistory: loadHistoryV2, LoadHistoryLookups: loadHistoryV2L})
 	}
-	props["C11"] = common.LoadingProperty(common.UniImpl{V2: true, Load: loadV1, LoadHistory: loadHistoryV2, LoadHistoryLookups: loadHistoryV2L})
+	props["C11"] = common.LoadingProperty(common.UniImpl{V2: true, Load: loadV1, LoadHistory: loadHistoryV2, LoadHistoryLookups: loadHistoryV2L, RequestTwice: requestTwiceV2})
 }
 
 // ---- C11: loading histories through the real v2 Parser (scratch module; LoadPackagesTo needs cwd) ----
@@ -240,4 +240,19 @@ func loadHistoryV2L(prog *common.Program, initial []string, steps [][]string, lo
 		}
 	}
 	return snapshotUniverse(u), stable, p.UserRequestedPackages(), nil
+}
+
+func requestTwiceV2(prog *common.Program, pkg string) (error, error) {
+	root, err := os.MkdirTemp("", "verif-mod-")
+	if err != nil {
+		return err, err
+	}
+	defer os.RemoveAll(root)
+	if err := writeModule(prog, root); err != nil {
+		return err, err
+	}
+	p := parser.New()
+	e1 := p.LoadPackagesWithConfigForTesting(pkgConfig(root), pkg)
+	e2 := p.LoadPackagesWithConfigForTesting(pkgConfig(root), pkg)
+	return e1, e2
 }
